@@ -26,6 +26,9 @@ def oracle(pystog, case, res):
     unchanged when the function values are replaced by others, non-negative, and restored by the inverse conversion"""
     if "exception" in res:
         return "conversion raised %s: %s" % (res["exception"], res["message"])
+    msg_ = L.same_arrays_twice(pystog, case)
+    if msg_:
+        return msg_
     sp, a, b, m = case["space"], case["X"], case["Y"], case["mat"]
     names = L.RN if sp == 0 else L.GN
     nm = "%s_to_%s" % (names[a], names[b])
